@@ -255,7 +255,22 @@ fn judge_events(o: &mut Outcome, inp: &Input, events: &[TerminalEvent]) -> Optio
         let shown: Vec<String> = segs
             .iter()
             .zip(events)
-            .map(|(seg, ev)| if is_osc_token(seg) && events::osc_external(seg) { "ext".to_string() } else { events::show_event(ev) })
+            .map(|(seg, ev)| {
+                if is_osc_token(seg) && events::osc_external(seg) {
+                    return "ext".to_string();
+                }
+                // the shared printer renders modifiers through KeyMod's own accessors: a raw word that is not the
+                // union of the named flags is made visible to the correspondence as well
+                let raw = match ev {
+                    TerminalEvent::Key(k) => Some(oracle::mod_bits(k.mode)),
+                    TerminalEvent::Mouse(m) => Some(oracle::mod_bits(m.mode)),
+                    _ => None,
+                };
+                match raw {
+                    Some(r) if r & !oracle::MOD_ALL != 0 => format!("{}!rawmod={r:#x}", events::show_event(ev)),
+                    _ => events::show_event(ev),
+                }
+            })
             .collect();
         let used: usize = segs.iter().map(|s| s.len()).sum();
         answer = Some(format!("{} rest={}", if shown.is_empty() { "-".to_string() } else { shown.join(" ") }, hex(&inp.stream[used..])));
